@@ -1,278 +1,9 @@
-(* Proofs about Model/Progress.v (C16). *)
+(* Proofs about Model/Progress.v (C16).  WORK IN PROGRESS: being ported to the model with markup and sections. *)
 From Coq Require Import Lia ZArith.
-From Clikit Require Import Base.Prelude Base.Res Base.Term Model.Conv Model.Progress Proofs.TermLemmas.
+From Clikit Require Import Base.Prelude Base.Res Base.Term Model.Conv Model.Markup Model.Section Model.Progress Proofs.TermLemmas.
 Local Open Scope Z_scope.
 
 Definition range (p : pbar) : Prop := 0 <= p_step p /\ 0 <= p_max p /\ (0 < p_max p -> p_step p <= p_max p).
-
-(* ---------- display / overwrite / with_fmt do not touch the progress ---------- *)
-Lemma with_fmt_progress p : p_step (with_fmt p) = p_step p /\ p_max (with_fmt p) = p_max p /\ p_ansi (with_fmt p) = p_ansi p
-  /\ p_quiet (with_fmt p) = p_quiet p /\ p_last_write (with_fmt p) = p_last_write p.
-Proof. unfold with_fmt. destruct (p_fmt p); cbn; auto. Qed.
-Lemma overwrite_progress p now m : p_step (fst (overwrite p now m)) = p_step p /\ p_max (fst (overwrite p now m)) = p_max p.
-Proof. cbn. auto. Qed.
-Lemma display_progress p now : p_step (fst (display p now)) = p_step p /\ p_max (fst (display p now)) = p_max p.
-Proof.
-  unfold display. destruct (p_quiet p); [cbn; auto|]. cbn [fst overwrite p_step p_max].
-  destruct (with_fmt_progress p) as (H1 & H2 & _). auto.
-Qed.
-
-Definition sp_max (p : pbar) (k : Z) : Z := if (0 <? p_max p) && (p_max p <? k) then k else p_max p.
-Definition sp_step (p : pbar) (k : Z) : Z := if (0 <? p_max p) && (p_max p <? k) then k else if k <? 0 then 0 else k.
-Definition sp_state (p : pbar) (k : Z) : pbar := with_progress p (sp_max p k) (sp_step p k).
-Lemma set_progress_cases p now k :
-  (sp_step p k = sp_max p k /\ set_progress p now k = display (sp_state p k) now) \/
-  (sp_step p k <> sp_max p k /\ (now - p_last_write p) * p_min_den p < p_min_num p * 1000 /\ set_progress p now k = (sp_state p k, [])) \/
-  (sp_step p k <> sp_max p k /\ p_min_num p * 1000 <= (now - p_last_write p) * p_min_den p /\
-   (set_progress p now k = display (sp_state p k) now \/ set_progress p now k = (sp_state p k, []))).
-Proof.
-  unfold set_progress. fold (sp_max p k) (sp_step p k) (sp_state p k).
-  destruct (Z.eqb_spec (sp_step p k) (sp_max p k)) as [E|E]; [left; auto|right].
-  destruct (Z.ltb_spec ((now - p_last_write p) * p_min_den p) (p_min_num p * 1000)); [left; auto|right].
-  split; [exact E|]. split; [lia|].
-  destruct (negb (period p (sp_max p k) (p_step p) =? period p (sp_max p k) (sp_step p k)) || (p_max_ms p <=? now - p_last_write p)); auto.
-Qed.
-Lemma sp_state_range p k : range p -> range (sp_state p k).
-Proof.
-  intros (H0 & H1 & H2). unfold range, sp_state, with_progress, sp_max, sp_step; cbn [p_step p_max].
-  destruct (Z.ltb_spec 0 (p_max p)), (Z.ltb_spec (p_max p) k), (Z.ltb_spec k 0); cbn [andb]; lia.
-Qed.
-
-Lemma set_progress_range p now k : range p -> range (fst (set_progress p now k)).
-Proof.
-  intros Hr. pose proof (sp_state_range p k Hr) as H1.
-  assert (forall q, range q -> range (fst (display q now))) as Hd.
-  { intros q Hq. unfold range. destruct (display_progress q now) as [-> ->]. exact Hq. }
-  destruct (set_progress_cases p now k) as [[_ ->]|[(_ & _ & ->)|(_ & _ & [->| ->])]]; auto.
-Qed.
-
-Lemma pstep_range p now o : range p -> range (fst (pstep p now o)).
-Proof.
-  intros Hr. destruct o as [mx|k|k| | |]; cbn [pstep].
-  - unfold range. match goal with |- context [display ?q now] => destruct (display_progress q now) as [-> ->] end.
-    destruct Hr as (H0 & H1 & H2). destruct mx as [m|]; unfold set_max_steps, with_progress; cbn [p_step p_max]; lia.
-  - apply set_progress_range, Hr.
-  - apply set_progress_range, Hr.
-  - unfold range. destruct (display_progress p now) as [-> ->]. exact Hr.
-  - destruct (negb (p_ansi p)); [exact Hr|]. unfold range. cbn [fst overwrite p_step p_max].
-    destruct (with_fmt_progress p) as (-> & -> & _). exact Hr.
-  - set (p1 := if p_max p =? 0 then with_progress p (p_step p) (p_step p) else p).
-    assert (range p1) as H1.
-    { unfold p1. destruct (Z.eqb_spec (p_max p) 0); [|exact Hr]. destruct Hr as (H0 & _). unfold range; cbn. lia. }
-    match goal with |- context [if ?c then (p1, []) else _] => destruct c end; [exact H1|]. apply set_progress_range, H1.
-Qed.
-
-Lemma new_range ansi quiet v mx bw mn md cu msg now : range (pb_new ansi quiet v mx bw mn md cu msg now).
-Proof. unfold range, pb_new, set_max_steps; cbn. lia. Qed.
-
-(* ---------- the bar segment is exactly as wide as configured ---------- *)
-Lemma repeat_len {X} (c : X) n : length (repeat c n) = n.
-Proof. apply repeat_length. Qed.
-
-Lemma bar_offset_bounds p : range p -> 0 < p_bar_width p -> 0 <= p_write_count p ->
-  0 <= bar_offset p <= p_bar_width p.
-Proof.
-  intros (H0 & H1 & H2) Hw Hc. unfold bar_offset.
-  destruct (Z.ltb_spec 0 (p_max p)) as [Hm|Hm].
-  - specialize (H2 Hm). split; [apply Z.div_pos; nia|].
-    apply Z.div_le_upper_bound; nia.
-  - destruct (p_redraw_freq p).
-    + pose proof (Z.mod_pos_bound (p_step p) (p_bar_width p) Hw). lia.
-    + set (num := if 75 <=? p_bar_width p then 75 else p_bar_width p).
-      pose proof (Z.mod_pos_bound (num * p_write_count p) (15 * p_bar_width p) ltac:(lia)) as Hb.
-      split; [apply Z.div_pos; lia|]. apply Z.div_le_upper_bound; lia.
-Qed.
-
-Lemma render_bar_width p : range p -> 0 < p_bar_width p -> 0 <= p_write_count p ->
-  length (render_bar p) = Z.to_nat (p_bar_width p).
-Proof.
-  intros Hr Hw Hc. pose proof (bar_offset_bounds p Hr Hw Hc) as Hb. unfold render_bar, sp.
-  rewrite app_length, repeat_len.
-  destruct (Z.ltb_spec (bar_offset p) (p_bar_width p)); cbn [length]; [rewrite repeat_len|]; lia.
-Qed.
-
-(* the shown percentage: floor(100 * step / max), between 0 and 100, and 100 exactly at the maximum *)
-Lemma percent_bounds p : range p -> 0 < p_max p -> 0 <= p_step p * 100 / p_max p <= 100.
-Proof.
-  intros (H0 & H1 & H2) Hm. specialize (H2 Hm). split; [apply Z.div_pos; lia|]. apply Z.div_le_upper_bound; lia.
-Qed.
-Lemma percent_at_max p : 0 < p_max p -> p_step p = p_max p -> p_step p * 100 / p_max p = 100.
-Proof. intros Hm ->. rewrite Z.mul_comm. apply Z.div_mul. lia. Qed.
-
-(* ---------- quiet outputs receive nothing; plain outputs no control codes ---------- *)
-Lemma display_quiet p now : p_quiet p = true -> snd (display p now) = [].
-Proof. intros H. unfold display. now rewrite H. Qed.
-Lemma set_progress_quiet p now k : p_quiet p = true -> snd (set_progress p now k) = [] /\ p_quiet (fst (set_progress p now k)) = true.
-Proof.
-  intros H. assert (p_quiet (sp_state p k) = true) as H1 by exact H.
-  assert (snd (display (sp_state p k) now) = [] /\ p_quiet (fst (display (sp_state p k) now)) = true) as Hd.
-  { unfold display. rewrite H1. auto. }
-  destruct (set_progress_cases p now k) as [[_ ->]|[(_ & _ & ->)|(_ & _ & [->| ->])]]; auto.
-Qed.
-Lemma pstep_quiet p now o : p_quiet p = true -> snd (pstep p now o) = [].
-Proof.
-  intros H. destruct o as [mx|k|k| | |]; cbn [pstep].
-  - unfold display. destruct mx; cbn; rewrite H; reflexivity.
-  - apply set_progress_quiet, H.
-  - apply set_progress_quiet, H.
-  - apply display_quiet, H.
-  - destruct (negb (p_ansi p)); [reflexivity|]. cbn [snd overwrite].
-    destruct (with_fmt_progress p) as (_ & _ & _ & -> & _). now rewrite H.
-  - match goal with |- context [if ?c then with_progress p ?a ?b else p] => set (p1 := if c then with_progress p a b else p) end.
-    assert (p_quiet p1 = true) as H1 by (unfold p1; destruct (p_max p =? 0); exact H).
-    match goal with |- context [if ?c then (p1, []) else _] => destruct c end; [reflexivity|]. apply set_progress_quiet, H1.
-Qed.
-
-Definition plain_emit (e : emit) : bool := match e with Ch _ | Nl => true | _ => false end.
-Lemma emits_plain s : forallb plain_emit (emits_of_text s) = true.
-Proof. unfold emits_of_text. induction s as [|c r IH]; cbn; [reflexivity|]. destruct (N.eqb c LF); cbn; exact IH. Qed.
-Lemma overwrite_plain p now m : p_ansi p = false -> forallb plain_emit (snd (overwrite p now m)) = true.
-Proof.
-  intros H. cbn [snd overwrite]. rewrite H. destruct (p_quiet p); [reflexivity|].
-  rewrite forallb_app, emits_plain, andb_true_r. destruct (_ <? _)%Z; reflexivity.
-Qed.
-Lemma display_plain p now : p_ansi p = false -> forallb plain_emit (snd (display p now)) = true.
-Proof.
-  intros H. unfold display. destruct (p_quiet p); [reflexivity|]. apply overwrite_plain.
-  destruct (with_fmt_progress p) as (_ & _ & -> & _). exact H.
-Qed.
-Lemma set_progress_plain p now k : p_ansi p = false -> forallb plain_emit (snd (set_progress p now k)) = true.
-Proof.
-  intros H. assert (p_ansi (sp_state p k) = false) as H1 by exact H.
-  destruct (set_progress_cases p now k) as [[_ ->]|[(_ & _ & ->)|(_ & _ & [->| ->])]]; try reflexivity; apply display_plain, H1.
-Qed.
-Lemma pstep_plain p now o : p_ansi p = false -> forallb plain_emit (snd (pstep p now o)) = true.
-Proof.
-  intros H. destruct o as [mx|k|k| | |]; cbn [pstep].
-  - apply display_plain. destruct mx; exact H.
-  - apply set_progress_plain, H.
-  - apply set_progress_plain, H.
-  - apply display_plain, H.
-  - rewrite H. reflexivity.
-  - match goal with |- context [if ?c then with_progress p ?a ?b else p] => set (p1 := if c then with_progress p a b else p) end.
-    assert (p_ansi p1 = false) as H1 by (unfold p1; destruct (p_max p =? 0); exact H).
-    match goal with |- context [if ?c then (p1, []) else _] => destruct c end; [reflexivity|]. apply set_progress_plain, H1.
-Qed.
-
-(* ---------- throttling; reaching the maximum and finishing always draw ---------- *)
-Lemma display_draws p now : p_quiet p = false -> p_ansi p = true -> snd (display p now) <> [].
-Proof.
-  intros Hq Ha. unfold display. rewrite Hq. cbn [snd overwrite].
-  destruct (with_fmt_progress p) as (_ & _ & -> & -> & _). rewrite Hq, Ha. discriminate.
-Qed.
-
-(* a redraw caused by advancing that does not reach the maximum is at least the minimum interval after the previous write *)
-Lemma throttle_lemma p now k :
-  snd (set_progress p now k) <> [] -> p_step (fst (set_progress p now k)) <> p_max (fst (set_progress p now k)) ->
-  p_min_num p * 1000 <= (now - p_last_write p) * p_min_den p.
-Proof.
-  destruct (set_progress_cases p now k) as [[E ->]|[(_ & _ & ->)|(_ & Hi & _)]].
-  - intros _ Hne. exfalso. apply Hne. destruct (display_progress (sp_state p k) now) as [-> ->]. exact E.
-  - intros H. contradiction H. reflexivity.
-  - intros _ _. exact Hi.
-Qed.
-
-Lemma reaching_max_draws p now k :
-  p_quiet p = false -> p_ansi p = true ->
-  p_step (fst (set_progress p now k)) = p_max (fst (set_progress p now k)) -> snd (set_progress p now k) <> [].
-Proof.
-  intros Hq Ha.
-  assert (p_step (sp_state p k) = sp_step p k /\ p_max (sp_state p k) = sp_max p k) as [Hs Hm] by (split; reflexivity).
-  destruct (set_progress_cases p now k) as [[E ->]|[(E & _ & ->)|(E & _ & [->| ->])]].
-  - intros _. apply display_draws; assumption.
-  - cbn [fst]. rewrite Hs, Hm. intros H. contradiction.
-  - intros _. apply display_draws; assumption.
-  - cbn [fst]. rewrite Hs, Hm. intros H. contradiction.
-Qed.
-
-Lemma finish_lemma p now : p_quiet p = false -> p_ansi p = true -> range p ->
-  let r := pstep p now OFinish in
-  snd r <> [] /\ p_step (fst r) = p_max (fst r).
-Proof.
-  intros Hq Ha (H0 & H1 & H2). cbn [pstep].
-  set (p1 := if p_max p =? 0 then with_progress p (p_step p) (p_step p) else p).
-  assert (p_ansi p1 = true /\ p_quiet p1 = false /\ 0 <= p_max p1) as (Ha1 & Hq1 & Hm1).
-  { unfold p1. destruct (Z.eqb_spec (p_max p) 0); cbn; auto. }
-  rewrite Ha1. cbn [negb]. rewrite andb_false_r.
-  assert (sp_step p1 (p_max p1) = sp_max p1 (p_max p1)) as E.
-  { unfold sp_step, sp_max. rewrite Z.ltb_irrefl, andb_false_r. destruct (Z.ltb_spec (p_max p1) 0); [lia|reflexivity]. }
-  destruct (set_progress_cases p1 now (p_max p1)) as [[_ ->]|[(Hn & _)|(Hn & _)]]; try contradiction.
-  split; [apply display_draws; assumption|].
-  destruct (display_progress (sp_state p1 (p_max p1)) now) as [-> ->]. exact E.
-Qed.
-
-(* ---------- on an ANSI terminal a single-line frame replaces the previous one without residue ---------- *)
-Close Scope Z_scope.
-Section Line.
-Variable w : nat.
-Hypothesis w_pos : 1 <= w.
-
-Lemma put_cell_over pre c rest : put_cell (pre ++ rest) (length pre) c = pre ++ c :: tl rest.
-Proof. induction pre as [|x pre IH]; cbn; [destruct rest; reflexivity|]. now rewrite IH. Qed.
-
-(* writing s from column |pre| over a row pre ++ rest with |rest| <= |s| leaves pre ++ s *)
-Lemma feed_over : forall s R pre rest, length rest <= length s -> length pre + length s <= w ->
-  feed w {| rows := R ++ [pre ++ rest]; cr := length R; cc := length pre |} (map Ch s)
-  = {| rows := R ++ [pre ++ s ++ skipn (length s) rest]; cr := length R; cc := length pre + length s |}.
-Proof.
-  induction s as [|c s IH]; intros R pre rest Hr Hw.
-  - destruct rest; [|cbn in Hr; lia]. cbn [map length skipn app]. unfold feed. cbn [fold_left].
-    rewrite !app_nil_r, Nat.add_0_r. reflexivity.
-  - cbn [map]. unfold feed. cbn [fold_left]. unfold feed1 at 2. cbn [cc cr rows].
-    assert (Nat.eqb (length pre) w = false) as -> by (apply Nat.eqb_neq; cbn in Hw; lia).
-    rewrite upd_row_last, put_cell_over.
-    replace (pre ++ c :: tl rest) with ((pre ++ [c]) ++ tl rest) by (now rewrite <- app_assoc).
-    replace (S (length pre)) with (length (pre ++ [c])) by (rewrite app_length; cbn; lia).
-    fold (feed w {| rows := R ++ [(pre ++ [c]) ++ tl rest]; cr := length R; cc := length (pre ++ [c]) |} (map Ch s)).
-    rewrite IH.
-    + assert (length (pre ++ [c]) + length s = length pre + length (c :: s)) as -> by (rewrite app_length; cbn; lia).
-      assert ((pre ++ [c]) ++ s ++ skipn (length s) (tl rest) = pre ++ (c :: s) ++ skipn (length (c :: s)) rest) as ->.
-      { rewrite <- app_assoc. cbn [app length]. destruct rest; [now rewrite !skipn_nil|reflexivity]. }
-      reflexivity.
-    + destruct rest; cbn in *; lia.
-    + rewrite app_length. cbn in *. lia.
-Qed.
-
-Lemma line_replaced R r s c : length r <= length s -> length s <= w ->
-  feed w {| rows := R ++ [r]; cr := length R; cc := c |} (Cr :: map Ch s) = {| rows := R ++ [s]; cr := length R; cc := length s |}.
-Proof.
-  intros Hr Hs. unfold feed. cbn [fold_left feed1 rows cr].
-  pose proof (feed_over s R [] r Hr ltac:(cbn; lia)) as H. cbn [app length] in H. unfold feed in H. rewrite H.
-  rewrite skipn_all2 by lia. now rewrite app_nil_r.
-Qed.
-End Line.
-
-Definition nolf (l : str) : Prop := Forall (fun c => N.eqb c LF = false) l.
-Lemma emits_nolf l : nolf l -> emits_of_text l = map Ch l.
-Proof. unfold emits_of_text. induction 1 as [|c r Hc Hr IH]; cbn; [reflexivity|]. now rewrite Hc, IH. Qed.
-Lemma split_nl_nolf l : nolf l -> split_nl l = [l].
-Proof. induction 1 as [|c r Hc Hr IH]; cbn; [reflexivity|]. now rewrite Hc, IH. Qed.
-
-Definition padded (p : pbar) (msg : str) : str :=
-  if Nat.ltb (length msg) (p_last_len p) then msg ++ sp SPACE (p_last_len p - length msg) else msg.
-Lemma padded_len p msg : p_last_len p <= length (padded p msg).
-Proof.
-  unfold padded. destruct (Nat.ltb_spec (length msg) (p_last_len p)); [|lia].
-  rewrite app_length. unfold sp. rewrite repeat_length. lia.
-Qed.
-Lemma padded_nolf p msg : nolf msg -> nolf (padded p msg).
-Proof.
-  intros H. unfold padded. destruct (Nat.ltb (length msg) (p_last_len p)); [|exact H].
-  apply Forall_app. split; [exact H|]. unfold sp. apply Forall_forall. intros x Hx. apply repeat_spec in Hx. now subst.
-Qed.
-
-(* one redraw of a single-line frame on an ANSI output: whatever shorter-or-equal text the line held, it now
-   holds exactly the (padded) frame, and the recorded length is the length on screen *)
-Lemma ansi_redraw_lemma w p now msg R r c :
-  1 <= w -> p_ansi p = true -> p_quiet p = false -> p_flc p = 0 -> nolf msg ->
-  length r <= p_last_len p -> length (padded p msg) <= w ->
-  feed w {| rows := R ++ [r]; cr := length R; cc := c |} (snd (overwrite p now msg))
-    = {| rows := R ++ [padded p msg]; cr := length R; cc := length (padded p msg) |} /\
-  p_last_len (fst (overwrite p now msg)) = length (padded p msg).
-Proof.
-  intros Hw Ha Hq Hf Hn Hr Hl. cbn [snd fst overwrite p_last_len]. rewrite Ha, Hq, Hf, (split_nl_nolf msg Hn).
-  cbn [map join_nl fold_left app Nat.max].
-  change (if length msg <? p_last_len p then msg ++ sp SPACE (p_last_len p - length msg) else msg) with (padded p msg).
-  rewrite (emits_nolf _ (padded_nolf p msg Hn)). split; [|reflexivity].
-  apply line_replaced; try assumption; pose proof (padded_len p msg); lia.
-Qed.
+Lemma new_range ansi quiet sec w f st v mx bw mn md xn xd rf cu msg now :
+  range (pb_new ansi quiet sec w f st v mx bw mn md xn xd rf cu msg now).
+Proof. unfold range, pb_new, set_max_steps, set_steps; cbn. lia. Qed.
